@@ -215,6 +215,12 @@ impl<'b> Machine<'b> {
                 if code == 10 {
                     self.append_from::<PE>(&mut v, i, a);
                     Slot::E(v)
+                } else if code == 18 && c & 1 == 1 {
+                    self.clone_from_other::<PE>(&mut v, i, a);
+                    Slot::E(v)
+                } else if code == 22 {
+                    self.limit_episode::<PE>(&mut v, a, b, c);
+                    Slot::E(v)
                 } else if code == 21 {
                     self.ctx.st(V::Conversions);
                     let VSlot { s, t } = v;
@@ -258,6 +264,12 @@ impl<'b> Machine<'b> {
                 self.ctx.st(V::Bytes);
                 if code == 10 {
                     self.append_from::<PB>(&mut v, i, a);
+                    Slot::B(v)
+                } else if code == 18 && c & 1 == 1 {
+                    self.clone_from_other::<PB>(&mut v, i, a);
+                    Slot::B(v)
+                } else if code == 22 {
+                    self.limit_episode::<PB>(&mut v, a, b, c);
                     Slot::B(v)
                 } else if code == 26 || code == 9 {
                     self.bytes_op(&mut v, a, b, c);
@@ -307,6 +319,68 @@ impl<'b> Machine<'b> {
             self.put(ns);
         }
         self.check_all();
+    }
+
+    /// clone_from another vector of the same kind (reuses the destination's buffer where it can)
+    fn clone_from_other<P: Pair>(&mut self, v: &mut VSlot<'b, P::A, P::B>, me: usize, a: u8)
+    where
+        Slot<'b>: SlotAs<'b, P>,
+    {
+        let cands: Vec<usize> = (0..self.slots.len()).filter(|&j| j != me && <Slot<'b> as SlotAs<'b, P>>::get(&mut self.slots[j]).is_some()).collect();
+        if cands.is_empty() {
+            return;
+        }
+        let j = cands[(a as usize * cands.len()) >> 8];
+        let other = <Slot<'b> as SlotAs<'b, P>>::get(&mut self.slots[j]).unwrap();
+        let VSlot { s, t } = v;
+        let VSlot { s: os, t: ot } = other;
+        self.ctx.both("clone_from", || s.clone_from(os), || t.clone_from(ot));
+    }
+
+    /// An episode under an exhausted allocation limit: a fallible reservation that cannot be served must
+    /// leave the vector (and its neighbours) exactly as they were.
+    fn limit_episode<P: Pair>(&mut self, v: &mut VSlot<'b, P::A, P::B>, a: u8, b: u8, c: u8) {
+        let bump = self.bump;
+        let VSlot { s, t } = v;
+        let held = bump.allocated_bytes();
+        bump.set_allocation_limit(Some(held));
+        let n = 64 + (a as usize) * 64;
+        let r = {
+            let _g = enter_arena(1);
+            catch_unwind(AssertUnwindSafe(|| if b & 1 == 0 { s.try_reserve(n).is_ok() } else { s.try_reserve_exact(n).is_ok() }))
+        };
+        match r {
+            Err(e) => self.ctx.v("C13", format!("try_reserve({n}) under an exhausted allocation limit panicked: {}", panic_msg(e))),
+            Ok(granted) => {
+                if granted {
+                    t.reserve(n);
+                    if s.capacity() < s.len() + n {
+                        self.ctx.v("C13", format!("try_reserve({n}) returned Ok but the capacity is {}", s.capacity()));
+                    }
+                }
+                // neighbours allocated right after the (possibly failed) reservation
+                for k in 0..(c % 4) as usize {
+                    let len = 8 + 8 * k;
+                    let p = {
+                        let _g = enter_arena(1);
+                        bump.try_alloc_layout(Layout::from_size_align(len, 4).unwrap()).ok().map(|p| p.as_ptr() as usize)
+                    };
+                    if let Some(p) = p {
+                        let id = self.canary_id;
+                        self.canary_id += 1;
+                        unsafe { write_pat(id, p as *mut u8, len) };
+                        self.slots.push(Slot::Canary { ptr: p, len, id });
+                    }
+                }
+                // the vector keeps working within the capacity it already had
+                let room = s.capacity().saturating_sub(s.len()).min(6);
+                for k in 0..room {
+                    let x = (c as u32 + k as u32) % 12;
+                    self.ctx.both("push within the old capacity after a failed try_reserve", || s.push(P::A::make(x)), || t.push(P::B::make(x)));
+                }
+            }
+        }
+        bump.set_allocation_limit(None);
     }
 
     fn append_from<P: Pair>(&mut self, v: &mut VSlot<'b, P::A, P::B>, me: usize, a: u8)
@@ -555,9 +629,9 @@ impl Engine for CollEngine {
     fn strategy(&self, _tier: Tier) -> BoxedStrategy<Vec<u8>> {
         //  push pop ins rem swr trn clr rsz ext exs app spl drn spc ret drf ddp rsv cln iit ibs ibx fri rd  drp new byt sib shr ddb
         let w: [u32; 30] = match self.prop {
-            "C15" => [10, 4, 5, 5, 4, 4, 2, 4, 5, 4, 3, 4, 8, 6, 4, 7, 3, 2, 5, 7, 4, 4, 0, 1, 4, 8, 2, 3, 1, 3],
-            "C14" => [10, 4, 5, 5, 4, 4, 2, 4, 5, 4, 3, 4, 8, 6, 4, 7, 3, 2, 5, 7, 4, 4, 0, 1, 4, 2, 2, 9, 1, 3],
-            _ => [10, 4, 6, 6, 4, 4, 2, 4, 5, 4, 3, 4, 7, 6, 4, 5, 3, 4, 3, 4, 2, 2, 0, 4, 2, 7, 4, 5, 2, 3],
+            "C15" => [10, 4, 5, 5, 4, 4, 2, 4, 5, 4, 3, 4, 8, 6, 4, 7, 3, 2, 5, 7, 4, 4, 1, 1, 4, 8, 2, 3, 1, 3],
+            "C14" => [10, 4, 5, 5, 4, 4, 2, 4, 5, 4, 3, 4, 8, 6, 4, 7, 3, 2, 6, 7, 4, 4, 2, 1, 4, 2, 2, 9, 1, 3],
+            _ => [10, 4, 6, 6, 4, 4, 2, 4, 5, 4, 3, 4, 7, 6, 4, 5, 3, 4, 4, 4, 2, 2, 3, 4, 2, 7, 4, 5, 2, 3],
         };
         if self.prop == "C15" {
             // ownership of boxed values is part of C15 as well: one case in five is a Box scenario (box_eng.rs)
